@@ -33,7 +33,8 @@ EXPLANATION = (
     ' coupling controller returns exactly the member nets its control step reads or writes, so that _relevant_nets '
     'recalculates every net that was written. (R20.8) the controller table schema of the multinet (names and dtypes of '
     "'object', 'in_service', 'order', 'level', ...) equals the schema of the member nets' controller table, so combining "
-    'and ordering the tables does not coerce the order key. Not decided: that member nets hold the results of a stand-'
+    "and ordering the tables does not coerce the order key. (R20.9, shared with C13 R13.5) every member net's output "
+    "writer gets the step's multinet-wide verdicts unchanged. Not decided: that member nets hold the results of a stand-"
     'alone calculation (runtime).')
 ASSUMPTIONS = ["pandas .at / .loc address the same cell for a scalar index", "the higher heating value property is positive"]
 TECHNIQUE = "normal forms of the conversion factors and control-step formulas; structural agreement of sibling arms"
